@@ -12,7 +12,7 @@ def run(tier, replay=None, v=None, memory_only=False):
     if own: v = Verdict("C04", tier)
     rng = random.Random(seed() * 15485863 + 4)
     wd = workdir("c04")
-    N = 4200 if tier == "thorough" else 1100
+    N = 8300 if tier == "thorough" else 1100
     if memory_only: N = 700
     recs = []
     for fn, nl in sorted(WIDTH.items()):
@@ -23,6 +23,7 @@ def run(tier, replay=None, v=None, memory_only=False):
         for si, sd in enumerate(seeds[:1] if memory_only else seeds if tier == "thorough" else seeds[:3]):
             style = (si + len(recs)) % 3
             n = N if si < 2 else N // 2 + rng.randrange(50)
+            if fn.startswith("adler") and si == 0 and not memory_only: n = 11200 if tier == "quick" else 22400   # past two / four 5552-byte reduction blocks, every tail
             msg = [rng.randrange(256) for _ in range(n)] if style == 0 else [255] * n if style == 1 else [rng.choice([0, 0, 0, 255, 1]) for _ in range(n)]
             recs.append({"id": len(recs), "fn": fn, "seed": sd, "msg": msg, "final_only": False})
         if tier == "thorough" and not memory_only:   # one large message per function (>= 1 MiB for adler's NMAX-style reductions; 256 KiB for the CRCs)
@@ -71,7 +72,7 @@ def run(tier, replay=None, v=None, memory_only=False):
            "variants_exercised": exercised, "variants_absent": missing, "faults": summ["faults"],
            "spec_anchors": "published check values for '123456789' (CRC-16/T10-DIF D0DB, CRC-32 CBF43926, BZIP2 FC891918, CRC-32C E3069283, CRC-64/XZ, /WE, /GO-ISO, /NVME, Adler-32 091E01DE) and bit-serial = table-driven are ASSUMEd in GenCrc.tla on every run",
            "rule": "per (function, seed in {0, all-ones, random...}, message of N bytes from VERIF_SEED): TLC folds Checksums.tla once and emits the value of every prefix; harness calls every variant "
-                   "(base, _00/_01/_02, by4, by8, by8_02, by16_10, dispatched; adler base/sse/avx2 and the B|(A-1) form) for every len 0..N (all <600, stride beyond in quick) x 3 placements (end/start flush against inaccessible pages, interior) "
+                   "(base, _00/_01/_02, by4, by8, by8_02, by16_10, dispatched; adler base/sse/avx2 and the B|(A-1) form) for every len 0..N (all <600, all within 72 of a multiple of 5552 or a power of two, stride elsewhere in quick; Adler-32 messages reach 11200 / 22400 bytes) x 3 placements (end/start flush against inaccessible pages, interior) "
                    "+ all 64 alignments at 5 lengths; every split point of 6 total lengths with the first result fed as seed; copy form checks dst==src and canaries. distinct_nontrivial = calls with len>0",
            "samples": [{"fn": r["fn"], "seed_limbs": r["seed"], "msg_first8": r["msg"][:8], "exp_len8_limbs": vecs[r["id"]]["exp"][8]} for r in recs[:3]]}
     cleanup(wd)
